@@ -23,10 +23,16 @@ Open Scope N_scope.
 Notation id := N (only parsing).
 
 (* ---- configuration: the code variant and what the two user hooks do ---- *)
+Inductive hook_kind :=
+| HookOk          (* returns without suspending *)
+| HookRaises      (* raises an Exception *)
+| HookSlow        (* suspends on something unrelated (a sleep), then returns *)
+| HookAwaits.     (* waits until every request it knows of has settled, then returns *)
+
 Record config := {
   fix_eof : bool;
   fix_wrap : bool;
-  hook_raises : bool;      (* the server_exit override raises an Exception *)
+  hook : hook_kind;        (* what the server_exit override does *)
   errhook_raises : bool    (* the report_server_error override raises an Exception *)
 }.
 
@@ -43,11 +49,17 @@ Inductive fstate :=                                            (* a future hande
 Inductive exn := ExIncompleteRead | ExErrHook.
 Inductive rstatus := RNotStarted | RBlocked | REnded | RRaised (e : exn).   (* the reader task *)
 Inductive pstatus := Alive | Exited (rc : Z).                               (* the server process *)
-Inductive xstatus := XWaiting | XDone.                                      (* the _server_exit task *)
+Inductive xstatus :=                                                        (* the _server_exit task *)
+| XWaiting                                   (* in `await self._server.wait()` *)
+| XInHook (rc : Z) (awaited : list id)       (* suspended inside `await self.server_exit(...)` *)
+| XDone.
 
 (* what the server wrote and the reader has not consumed yet: complete items only *)
 Inductive item :=
-| Reply (i : id) (r : res)     (* a complete response frame *)
+| Reply (i : id) (r : res)     (* a complete, well-formed response frame *)
+| BadReply (i : id)            (* a complete frame that names request i but cannot be decoded or is
+                                  not accepted as a response: error member of the wrong shape, result
+                                  failing validation, other protocol version *)
 | BadFrame                     (* a complete frame whose body cannot be handled (not JSON) *)
 | Junk.                        (* a complete line that is not a header *)
 
@@ -66,7 +78,7 @@ Inductive event :=
 | SrvWrite (it : item)         (* the (live) server writes a complete item *)
 | ProcExit (rc : Z) (t : tail) (* the process terminates; the stream ends with t *)
 | ReaderRun                    (* the reader task runs until it blocks or ends *)
-| ServerExitTask               (* the _server_exit coroutine resumes after wait() and finishes *)
+| ServerExitTask               (* the _server_exit coroutine runs until it suspends or finishes *)
 | Stop.                        (* the caller calls stop() *)
 
 Record state := {
@@ -80,7 +92,8 @@ Record state := {
   reader : rstatus;            (* _async_tasks[0] *)
   xtask : xstatus;             (* _async_tasks[1] *)
   stopped : bool;              (* _stop_event *)
-  hook_calls : list Z;         (* calls of server_exit: the returncode it saw *)
+  hook_calls : list (Z * bool); (* calls of server_exit: the returncode it saw, and whether every
+                                  request it could know of was already done when it started *)
   errs : N;                    (* calls of report_server_error *)
   stop_called : bool
 }.
@@ -181,6 +194,8 @@ Definition handle_reply (c : config) (s : state) (i : id) (r : res) : state :=
 Definition handle_item (c : config) (s : state) (it : item) : state :=
   match it with
   | Reply i r => handle_reply c s i r
+  | BadReply _ => call_error_handler c s    (* structure_message / handle_message give up: the
+                                               request stays outstanding, its future pending *)
   | BadFrame => call_error_handler c s      (* json.loads raises inside the try *)
   | Junk => s                               (* no Content-Length match, not blank: next line *)
   end.
@@ -241,25 +256,51 @@ Fixpoint fail_all (rc : Z) (ids : list id) (f : list (id * fstate)) : list (id *
     end
   end.
 
-(* await self.server_exit(self._server): returns (state, raised?) *)
-Definition call_hook (c : config) (rc : Z) (s : state) : state * bool :=
-  ({| futs := futs s; rf := rf s; next := next s; out := out s; pipe := pipe s; proc := proc s;
-      tl := tl s; reader := reader s; xtask := xtask s; stopped := stopped s;
-      hook_calls := hook_calls s ++ [rc]; errs := errs s; stop_called := stop_called s |},
-   hook_raises c).
+Definition all_done (f : list (id * fstate)) (ids : list id) : bool :=
+  forallb (fun i => match aget f i with Some st => is_done st | None => false end) ids.
 
+Definition set_hook_calls (s : state) h := {|
+  futs := futs s; rf := rf s; next := next s; out := out s; pipe := pipe s; proc := proc s; tl := tl s;
+  reader := reader s; xtask := xtask s; stopped := stopped s; hook_calls := h;
+  errs := errs s; stop_called := stop_called s |}.
+Definition set_xtask (s : state) x := {|
+  futs := futs s; rf := rf s; next := next s; out := out s; pipe := pipe s; proc := proc s; tl := tl s;
+  reader := reader s; xtask := x; stopped := stopped s; hook_calls := hook_calls s;
+  errs := errs s; stop_called := stop_called s |}.
+
+(* after the hook (returned, or raised an Exception that the try/except logs):
+   self._stop_event.set(); the coroutine ends *)
+Definition finish_exit (s : state) : state := set_xtask (set_stopped s true) XDone.
+
+(* One run of the exit watcher.  From the return of wait(): fail the not-done futures, enter the
+   hook.  A hook that does not suspend returns or raises at once; a hook that suspends leaves the
+   task inside it (XInHook with the requests the hook knew of), and a later run finishes it when
+   what it waits for has happened. *)
 Definition server_exit_task (c : config) (s : state) : state :=
-  match xtask s, proc s with
-  | XWaiting, Exited rc =>
-    let s1 := set_futs s (fail_all rc (rf s) (futs s)) in
-    let '(s2, raised) := call_hook c rc s1 in
-    (* try: ... except Exception: logged.  Both outcomes continue here. *)
-    let s3 := if raised then s2 else s2 in
-    let s4 := set_stopped s3 true in
-    {| futs := futs s4; rf := rf s4; next := next s4; out := out s4; pipe := pipe s4; proc := proc s4;
-       tl := tl s4; reader := reader s4; xtask := XDone; stopped := stopped s4;
-       hook_calls := hook_calls s4; errs := errs s4; stop_called := stop_called s4 |}
-  | _, _ => s
+  match xtask s with
+  | XWaiting =>
+    match proc s with
+    | Exited rc =>
+      let s1 := set_futs s (fail_all rc (rf s) (futs s)) in
+      let ids := map fst (futs s1) in
+      let s2 := set_hook_calls s1 (hook_calls s1 ++ [(rc, all_done (futs s1) ids)]) in
+      match hook c with
+      | HookOk => finish_exit s2
+      | HookRaises => finish_exit s2           (* except Exception: logged *)
+      | HookSlow => set_xtask s2 (XInHook rc ids)
+      | HookAwaits => match ids with
+                      | [] => finish_exit s2   (* nothing to wait for: does not suspend *)
+                      | _ => set_xtask s2 (XInHook rc ids)
+                      end
+      end
+    | Alive => s
+    end
+  | XInHook rc ids =>
+    match hook c with
+    | HookAwaits => if all_done (futs s) ids then finish_exit s else s
+    | _ => finish_exit s
+    end
+  | XDone => s
   end.
 
 (* ---- stop() ---- *)
@@ -276,7 +317,7 @@ Definition stop_outcome (s : state) : stop_result :=
   | Exited _ =>
     match reader s with
     | RRaised e => StopRaises e
-    | REnded => match xtask s with XDone => StopReturns | XWaiting => StopBlocked end
+    | REnded => match xtask s with XDone => StopReturns | _ => StopBlocked end
     | _ => StopBlocked
     end
   end.
@@ -314,7 +355,7 @@ Definition run (c : config) (evs : list event) : state := run_from c init evs.
 (* ---- what a caller can observe ---- *)
 Record obs := {
   o_futs : list (id * fstate); (* the futures, by request id, in creation order *)
-  o_hooks : list Z;
+  o_hooks : list (Z * bool);
   o_stopped : bool;
   o_stop : stop_result;        (* the outcome of `await client.stop()` called now *)
   o_errs : N
@@ -325,7 +366,7 @@ Definition observe (s : state) : obs := {|
   o_stop := stop_outcome s; o_errs := errs s |}.
 
 (* the target state of the repository / the pinned commit *)
-Definition repaired (h e : bool) : config :=
-  {| fix_eof := true; fix_wrap := true; hook_raises := h; errhook_raises := e |}.
-Definition pinned (h e : bool) : config :=
-  {| fix_eof := false; fix_wrap := false; hook_raises := h; errhook_raises := e |}.
+Definition repaired (h : hook_kind) (e : bool) : config :=
+  {| fix_eof := true; fix_wrap := true; hook := h; errhook_raises := e |}.
+Definition pinned (h : hook_kind) (e : bool) : config :=
+  {| fix_eof := false; fix_wrap := false; hook := h; errhook_raises := e |}.
